@@ -93,8 +93,10 @@ Theorem bytecode_run_pure e s s' v c m fuel :
       exists v' m', Run fuel (load_code v s') true = (v', RValue x) /\
         assoc_get (v_mems v') (c_mid c) = Some m' /\ m_sp m' = m_sp m /\ msame (m_sp m) m m' /\
         v_globals v' = v_globals v /\ v_out v' = v_out v /\
-        (exists c', assoc_get (v_ctxs v') 0 = Some c' /\ c_ip c' = ncs s' /\ c_mid c' = c_mid c)
-  | Fail err => exists v' rep, Run fuel (load_code v s') true = (v', RError err rep)
+        (exists c', assoc_get (v_ctxs v') 0 = Some c' /\ c_ip c' = ncs s' /\ c_mid c' = c_mid c /\
+                    c_children c' = c_children c)
+  | Fail err => exists me rep, Run fuel (load_code v s') true
+                               = (reset_after_error (St (load_code v s') (c_mid c) me), RError err rep)
   end.
 Proof.
   intros Hp Hwf [Hctx Hip Hmem Hsp] HB Hfuel.
@@ -130,8 +132,8 @@ Proof.
                      steps true n (St v1 (c_mid c) m) r0 = SNext (St v1 (c_mid c) m3) r3 /\
                      msame (m_sp m) m m3 /\ m_sp m3 = m_sp m + 1 /\ znth (m_stack m3) (m_sp m) = Some x /\
                      r_ctx r3 = 0 /\ r_ip r3 = ncs sfin
-                 | Fail err => exists n v' ip vals, (n = Z.to_nat (ncs sfin - ncs s)) /\
-                     steps true n (St v1 (c_mid c) m) r0 = SErr v' 0 ip err vals
+                 | Fail err => exists n me ip vals, (n = Z.to_nat (ncs sfin - ncs s)) /\
+                     steps true n (St v1 (c_mid c) m) r0 = SErr (St v1 (c_mid c) me) 0 ip err vals
                  end).
   { destruct (Z.eqb_spec K AddrStck) as [EK|NK]; cbn [negb] in Hfin.
     - apply cret_ok in Hfin. destruct Hfin as [_ ->].
@@ -194,7 +196,7 @@ Proof.
     + apply mdrop_msame; [exact Hm3|lia].
     + reflexivity.
     + reflexivity.
-    + exists c'. conj; [cbn [set_mem v_ctxs set_ctx St]; apply assoc_get_set_same|exact Hi3|reflexivity].
+    + exists c'. conj; [cbn [set_mem v_ctxs set_ctx St]; apply assoc_get_set_same|exact Hi3|reflexivity|reflexivity].
   - destruct Main as [n [v' [ip [vals [Hn Hs]]]]].
     replace fuel with (n + (fuel - n))%nat by lia.
     rewrite (run_loop_steps_error true n v1 r0 (fuel - n) _ _ _ _ _ Hncs Hs). eauto.
@@ -244,7 +246,7 @@ Proof.
   destruct (bytecode_run_pure e (mc_cs mc) s' (mc_vm mc) c m session_fuel Hp Hwf Hid HB Hfuel) as [Ws R].
   unfold run_tree, strewrite. rewrite (resolve_pure e Hp). cbn [negb]. rewrite HB.
   destruct (den (v_globals (mc_vm mc)) e) as [x|err].
-  - destruct R as [v' [m' (R & Hm' & Hsp' & Hms & Hg & Ho & [c' [Hc' [Hip' Hmid']]])]]. rewrite R.
+  - destruct R as [v' [m' (R & Hm' & Hsp' & Hms & Hg & Ho & [c' [Hc' [Hip' [Hmid' _]]]])]]. rewrite R.
     eexists. exists c', m'. conj; try reflexivity; try assumption.
     split; [exact Ws|]. cbn [mc_vm mc_cs]. constructor; try assumption.
     + rewrite Hmid'. exact Hm'.
